@@ -19,6 +19,7 @@ CONSTANTS
  ListOrders <- MC_ListOrders
  MaxExtra <- MC_MaxExtra
  EMIT <- MC_EMIT
+ BatchAtEnd <- MC_BatchAtEnd
 INIT Init
 NEXT Next
 CHECK_DEADLOCK FALSE
